@@ -61,6 +61,6 @@ theorem C13_mmult_avx_8 (a0 a1 a2 : V4) (M : Region) (i : Fin 4) (hb : ∀ k, k 
 
 /-- non-vacuity of the 8-bit hypothesis -/
 example : ∃ M : Region, (∀ k, k < 144 → (M k).toNat < 2^8) ∧ (M 5).toNat = 255 :=
-  ⟨fun _ => 255#64, fun _ _ => by show (255#64 : BitVec 64).toNat < 2^8; decide, by decide⟩
+  ⟨⟨fun _ => 255#64⟩, fun _ _ => by show (255#64 : BitVec 64).toNat < 2^8; decide, by decide⟩
 
 end GoldilocksVerif.C13
